@@ -919,7 +919,8 @@ ASTNode *PrimaryExpressionParser::parseLambda() {
             param->is_const = param_parsed.is_const;
             param->is_pointer_const_qualifier = param_parsed.is_pointer_const;
             param->is_pointee_const_qualifier =
-                param_parsed.is_const && param_parsed.is_pointer;
+                param_parsed.is_pointee_const ||
+                (param_parsed.is_const && param_parsed.is_pointer);
             if (param_parsed.is_array) {
                 param->array_type_info = param_parsed.array_info;
                 param->is_array = true;
